@@ -36,7 +36,13 @@ enum Node {
     For { var: String, lo: i64, hi: i64, inclusive: bool, body: Vec<Node>, bound_func: Option<usize> },
     /// `as_map`: iterate a map `(10: x, 13: x)` with two variables; the first one carries the key
     Each { var: String, items: Vec<i64>, body: Vec<Node>, as_map: bool },
-    While { var: String, n: i64, body: Vec<Node> },
+    /// `cond_func`: the condition is written `fN($w) < n` (fN returns its argument; its directives
+    /// are delivered at every evaluation of the condition: n + 1 times for a loop that runs out)
+    While { var: String, n: i64, body: Vec<Node>, cond_func: Option<usize> },
+    /// inside a function, inside a loop over `var`: `@if $var == k { @return $a; }`
+    ReturnIf { var: String, k: i64 },
+    /// expressions whose operand may or may not be evaluated: if(), and, or, !default
+    Lazy { kind: u8, tag: u32, f1: usize, f2: usize, arg: i64 },
     If { cond: Cond, then: Vec<Node>, els: Vec<Node> },
     Rule { sel: String, body: Vec<Node> },
     Include { mixin: usize, arg: i64, content: Option<Vec<Node>> },
@@ -159,7 +165,8 @@ impl<'a> Gen<'a> {
                     v2.push(var.clone());
                 }
                 let body = self.block(if wh == Where::Function { Where::Function } else { Where::Control }, depth + 1, &v2, nmix, nfun, &[], in_rule);
-                Node::While { var, n: self.rng.range(1, 3) as i64, body }
+                let cond_func = if nfun > 0 && wh != Where::Mixin && wh != Where::Content && self.rng.chance(0.3) { Some(self.rng.usize_below(nfun)) } else { None };
+                Node::While { var, n: self.rng.range(1, 3) as i64, body, cond_func }
             } else if r < 73 && depth < 3 {
                 let cond = if !vars.is_empty() && self.rng.chance(0.6) { Cond::VarEq(vars[self.rng.usize_below(vars.len())].clone(), self.rng.range(0, 2) as i64) } else { Cond::Lit(self.rng.chance(0.5)) };
                 let sub = if wh == Where::Function { Where::Function } else { Where::Control };
@@ -186,7 +193,17 @@ impl<'a> Gen<'a> {
             };
             let node = match node {
                 Node::Call { func, arg } if self.rng.chance(0.4) => Node::DebugOfCall { tag: self.tag(), func, arg },
+                Node::Call { func, arg } if self.rng.chance(0.4) => Node::Lazy { kind: self.rng.below(7) as u8, tag: self.tag(), f1: func, f2: self.rng.usize_below(nfun), arg },
                 n => n,
+            };
+            // an early return from inside a loop of a function body
+            let node = if wh == Where::Function && self.rng.chance(0.12) {
+                match vars.iter().rev().find(|v| v.as_str() != "a") {
+                    Some(v) => Node::ReturnIf { var: v.clone(), k: self.rng.range(0, 2) as i64 },
+                    None => node,
+                }
+            } else {
+                node
             };
             out.push(node);
         }
@@ -305,9 +322,33 @@ impl Printer {
                     self.block(indent + 1, body, f, all);
                     self.close(indent);
                 }
-                Node::While { var, n, body } => {
+                Node::ReturnIf { var, k } => {
+                    self.open(indent, &format!("@if ${} == {}", var, k));
+                    self.stmt(indent + 1, "@return $a");
+                    self.close(indent);
+                }
+                Node::Lazy { kind, tag, f1, f2, arg } => {
+                    let (a, b) = (format!("{}({})", f.funcs[*f1].name, arg), format!("{}({})", f.funcs[*f2].name, arg + 1));
+                    match kind {
+                        0 => self.stmt(indent, &format!("$_l: if(true, {}, {})", a, b)),
+                        1 => self.stmt(indent, &format!("$_l: if(false, {}, {})", a, b)),
+                        2 => self.stmt(indent, &format!("$_l: false and {}", a)),
+                        3 => self.stmt(indent, &format!("$_l: true and {}", a)),
+                        4 => self.stmt(indent, &format!("$_l: true or {}", a)),
+                        5 => self.stmt(indent, &format!("$_l: false or {}", a)),
+                        6 => {
+                            self.stmt(indent, &format!("$_d{}: 1", tag));
+                            self.stmt(indent, &format!("$_d{}: {} !default", tag, a));
+                        }
+                        _ => self.stmt(indent, &format!("$_e{}: {} !default", tag, a)),
+                    }
+                }
+                Node::While { var, n, body, cond_func } => {
                     self.stmt(indent, &format!("${}: 0", var));
-                    self.open(indent, &format!("@while ${} < {}", var, n));
+                    match cond_func {
+                        Some(cf) => self.open(indent, &format!("@while {}(${}) < {}", f.funcs[*cf].name, var, n)),
+                        None => self.open(indent, &format!("@while ${} < {}", var, n)),
+                    }
                     self.block(indent + 1, body, f, all);
                     self.stmt(indent + 1, &format!("${}: ${} + 1", var, var));
                     self.close(indent);
@@ -465,9 +506,26 @@ struct Exec<'a> {
     out: Vec<Expected>,
     error: Option<Expected>,
     used: BTreeSet<usize>,
+    /// set by an early `@return`; consumed at the call site of the function
+    returned: bool,
 }
 
 impl<'a> Exec<'a> {
+    /// Execute the body of function `func` of file `fi` with `$a = arg`; false = an @error stopped everything.
+    fn call_fn(&mut self, fi: usize, func: usize, arg: i64) -> bool {
+        let body = self.files[fi].funcs[func].body.clone();
+        let mut fenv = BTreeMap::new();
+        fenv.insert("a".to_string(), arg);
+        if !self.run(fi, &body, &mut fenv, None) {
+            if self.returned {
+                self.returned = false;
+                return true;
+            }
+            return false;
+        }
+        true
+    }
+
     fn msg(prefix: &str, tag: u32, vars: &[String], env: &BTreeMap<String, i64>) -> String {
         let mut m = format!("{}{}", prefix, tag);
         for v in vars {
@@ -495,10 +553,7 @@ impl<'a> Exec<'a> {
                 }
                 Node::For { var, lo, hi, inclusive, body, bound_func } => {
                     if let Some(bf) = bound_func {
-                        let f = &self.files[fi].funcs[*bf];
-                        let mut fenv = BTreeMap::new();
-                        fenv.insert("a".to_string(), *hi);
-                        if !self.run(fi, &f.body, &mut fenv, None) {
+                        if !self.call_fn(fi, *bf, *hi) {
                             return false;
                         }
                     }
@@ -523,14 +578,42 @@ impl<'a> Exec<'a> {
                     }
                     env.remove(var);
                 }
-                Node::While { var, n, body } => {
-                    for i in 0..*n {
+                Node::While { var, n, body, cond_func } => {
+                    for i in 0..=*n {
                         env.insert(var.clone(), i);
+                        // the condition is evaluated before every iteration and once more at the end
+                        if let Some(cf) = cond_func {
+                            if !self.call_fn(fi, *cf, i) {
+                                return false;
+                            }
+                        }
+                        if i == *n {
+                            break;
+                        }
                         if !self.run(fi, body, env, content.clone()) {
                             return false;
                         }
                     }
                     env.insert(var.clone(), *n);
+                }
+                Node::ReturnIf { var, k } => {
+                    if env.get(var).copied() == Some(*k) {
+                        self.returned = true;
+                        return false;
+                    }
+                }
+                Node::Lazy { kind, f1, f2, arg, .. } => {
+                    let evaluated: Option<(usize, i64)> = match kind {
+                        0 => Some((*f1, *arg)),
+                        1 => Some((*f2, *arg + 1)),
+                        2 | 4 | 6 => None,
+                        _ => Some((*f1, *arg)),
+                    };
+                    if let Some((f, a)) = evaluated {
+                        if !self.call_fn(fi, f, a) {
+                            return false;
+                        }
+                    }
                 }
                 Node::If { cond, then, els } => {
                     let c = match cond {
@@ -575,10 +658,7 @@ impl<'a> Exec<'a> {
                     }
                 }
                 Node::Call { func, arg } => {
-                    let f = &self.files[fi].funcs[*func];
-                    let mut fenv = BTreeMap::new();
-                    fenv.insert("a".to_string(), *arg);
-                    if !self.run(fi, &f.body, &mut fenv, None) {
+                    if !self.call_fn(fi, *func, *arg) {
                         return false;
                     }
                 }
@@ -589,10 +669,7 @@ impl<'a> Exec<'a> {
                 }
                 Node::Decl | Node::Filler { .. } => {}
                 Node::DebugOfCall { tag, func, arg } => {
-                    let f = &self.files[fi].funcs[*func];
-                    let mut fenv = BTreeMap::new();
-                    fenv.insert("a".to_string(), *arg);
-                    if !self.run(fi, &f.body, &mut fenv, None) {
+                    if !self.call_fn(fi, *func, *arg) {
                         return false;
                     }
                     let msg = if tag % 2 == 0 { arg.to_string() } else { format!("q{}-{}", tag, arg) };
@@ -715,7 +792,7 @@ pub fn gen_script(rng: &mut Rng, root: &str) -> Script {
         let mut funcs = vec![];
         for fnn in 0..nfun {
             g.budget = 5;
-            let body = g.block(Where::Function, 1, &["a".to_string()], 0, 0, &[], false);
+            let body = g.block(Where::Function, 1, &["a".to_string()], 0, fnn, &[], false);
             funcs.push(Callable { name: format!("f{}x{}", i, fnn), body, content_at: None });
         }
         g.budget = 14;
@@ -829,7 +906,7 @@ pub fn gen_script(rng: &mut Rng, root: &str) -> Script {
         lines.push(p.lines);
     }
     // execute the tree
-    let mut ex = Exec { files: &files, lines: &lines, out: vec![], error: None, used: BTreeSet::new() };
+    let mut ex = Exec { files: &files, lines: &lines, out: vec![], error: None, used: BTreeSet::new(), returned: false };
     ex.file(0);
     let mut job = JobSpec::default();
     job.cwd = root.to_string();
